@@ -46,7 +46,7 @@ pub fn rule_for(prop: &str, engine: &str) -> String {
     match engine {
         "seq" => {
             if prop == "C15" {
-                "metamorphic pairs: base history h and h' = h plus extra contains_key/iter calls at generated positions; the results of all other operations and the final residents must be identical; non-trivial = >= 1 extra call was inserted and an eviction, rejection or expiry purge happened in the history; distinct = distinct case hash".to_string()
+                "metamorphic pairs: base history h and h' = h plus extra contains_key / iter / Debug-formatting calls at generated positions; the results of all other operations and the final residents must be identical; non-trivial = >= 1 extra call was inserted and an eviction, rejection or expiry purge happened in the history; distinct = distinct case hash".to_string()
             } else {
                 gen::rule_text(prop).to_string()
             }
